@@ -62,6 +62,7 @@ theorem lin_congr : (e : Expr) → LinOnce e = true → ∀ ρ ρ' : Env,
   | .lower _, h => by simp [LinOnce] at h
   | .cref _, h => by simp [LinOnce] at h
   | .vref _, h => by simp [LinOnce] at h
+  | .present _ _, h => by simp [LinOnce] at h
 theorem linList_congr : (es : List Expr) → LinOnceList es = true → ∀ ρ ρ' : Env,
     (∀ id ∈ ivarsList es, ρ.i id = ρ'.i id) →
     evalList ρ es = evalList ρ' es ∧ (EnvOkList ρ es → EnvOkList ρ' es)
@@ -351,6 +352,7 @@ theorem tight_aux : (e : Expr) → LinOnce e = true →
   | .lower _, h => by simp [LinOnce] at h
   | .cref _, h => by simp [LinOnce] at h
   | .vref _, h => by simp [LinOnce] at h
+  | .present _ _, h => by simp [LinOnce] at h
 theorem tightList_aux : (es : List Expr) → LinOnceList es = true →
     ∃ avs, absList es = some (avs.map .int) ∧ (∀ a ∈ avs, InvS a) ∧ TightList es avs
   | [], _ =>
